@@ -18,6 +18,10 @@ pub struct C12;
 pub struct Case {
     pub project: Project,
     pub opts: RunOpts,
+    /// build once, flip the line terminators of every generated file on disk, build again and
+    /// scan the result of the second build
+    #[serde(default)]
+    pub over_flipped: bool,
 }
 
 fn gen_case(c: &mut Choices) -> Case {
@@ -35,7 +39,8 @@ fn gen_case(c: &mut Choices) -> Case {
         inputs: vec![".".into()],
         shell: String::new(),
     };
-    Case { project, opts }
+    let over_flipped = c.chance(1, 3);
+    Case { project, opts, over_flipped }
 }
 
 /// the documented ending of a source: that of its first line, LF when it has no terminator
@@ -86,7 +91,16 @@ pub fn check(case: &Case, st: &mut Stats) -> Check {
         Verdict::Ok => {}
     }
     su.write(&case.project);
-    let out = runner::run_free(&su.sc.root, &case.opts);
+    let mut out = runner::run_free(&su.sc.root, &case.opts);
+    if out.ok && case.over_flipped {
+        for (p, b) in su.generated() {
+            let t = String::from_utf8_lossy(&b).to_string();
+            let f = if t.contains("\r\n") { t.replace("\r\n", "\n") } else { t.replace('\n', "\r\n") };
+            let _ = std::fs::write(su.sc.root.join(&p), f);
+        }
+        out = runner::run_free(&su.sc.root, &case.opts);
+        st.class("rebuilt_over_files_with_other_line_endings");
+    }
     if !out.ok {
         // C01's business
         st.class("build_failed_skipped");
@@ -133,7 +147,7 @@ pub fn check(case: &Case, st: &mut Stats) -> Check {
 fn reduce(case: &Case) -> Vec<Case> {
     reduce_project(&case.project)
         .into_iter()
-        .map(|p| Case { project: p, opts: case.opts.clone() })
+        .map(|p| Case { project: p, ..case.clone() })
         .collect()
 }
 
@@ -149,7 +163,7 @@ impl Prop for C12 {
         }
     }
     fn worker(&self, ctx: &mut WorkerCtx) {
-        let total = if ctx.quick { 30_000 } else { 500_000 };
+        let total = if ctx.quick { 40_000 } else { 1_500_000 };
         let n = ctx.share(total);
         ctx.drive(1, n, 600, &gen_case, &check, &reduce);
     }
